@@ -107,6 +107,71 @@ pub fn ns_worker() -> i32 {
   match r { Ok(v) => { println!("{}", v); 0 } Err(e) => { eprintln!("c15 ns-worker: {}", e); 3 } }
 }
 
+/// End-to-end tier (DESIGN 5.5): the real binary's `add_systemd_service --layout-file F` (or --default-layout NAME) in a
+/// private mount namespace writes /etc/totalmapper.json; that file is reloaded with the real load_layout_from_file and
+/// compared with what the real loader makes of F itself; the real binary must also accept the saved file the way the
+/// service does (`remap --layout-file /etc/totalmapper.json --only-if-keyboard --dev-file ...`).
+pub struct InstallTier { pub invocations: u64, pub fails: Vec<(String, String, Value)>, pub machinery: Option<String> }
+
+pub fn installer_tier(ctx: &Ctx) -> Option<InstallTier> {
+  use crate::e2e::*;
+  if !available() { return None; }
+  let thorough = ctx.tier == Tier::Thorough;
+  // (source text given to the binary, what it must mean)
+  let mut items: Vec<(String, LayoutArg, Layout)> = vec![];
+  {
+    let mut idx = 0usize;
+    let mut f = |family: &str, l: Layout| {
+      idx += 1;
+      let keep = thorough || family != "shape-family" || idx % 5 == 0;
+      if keep { items.push((family.to_string(), LayoutArg::File(serde_json::to_vec(&l).unwrap()), l)); }
+    };
+    for_each_layout(thorough, &mut f);
+  }
+  // layout files in the user's own syntax (rows, aliases, repeat-only entries): C13's generated programs, reduced
+  let stride = if thorough { 3 } else { 23 };
+  for (i, p) in crate::c13::programs(false).iter().enumerate() {
+    if i % stride == 0 || i % 101 < 3 { if let Ok(l) = load_layout_value(p) { items.push(("shorthand-program".into(), LayoutArg::File(serde_json::to_vec_pretty(p).unwrap()), l)); } }
+  }
+  // the built-in layouts by name
+  let mut names: Vec<&String> = crate::default_fancy_layouts::DEFAULT_LAYOUTS.keys().collect(); names.sort();
+  for n in names { if let Ok(l) = load_layout_text(crate::default_fancy_layouts::DEFAULT_LAYOUTS[n]) { items.push(("default-layout".into(), LayoutArg::Default(n.clone()), l)); } }
+  let cases: Vec<Case> = items.iter().enumerate().map(|(i, it)| Case { layout: it.1.clone(), excludes: if i % 3 == 0 { vec!["*Mouse*".into()] } else { vec![] }, install: true }).collect();
+  let mut t = InstallTier { invocations: cases.len() as u64, fails: vec![], machinery: None };
+  let obs = match run_cases(&cases, ctx.threads) { Ok(o) => o, Err(e) => { if e.starts_with("unavailable") { return None; } t.machinery = Some(e); return Some(t); } };
+  let scratch = format!("/verif/.target/c15-e2e-{}.json", std::process::id());
+  let mut per_clause: std::collections::BTreeMap<String, u64> = Default::default();
+  for ((family, arg, want), o) in items.iter().zip(obs.iter()) {
+    let src = match arg { LayoutArg::File(b) => json!({"layout_file_text": String::from_utf8_lossy(b)}), LayoutArg::Default(n) => json!({"default_layout": n}) };
+    let art = json!({"engine": "C15", "tier": "real-binary", "family": family, "source": src, "layout": layout_json(want)});
+    let mut fail: Option<(&str, String)> = None;
+    match &o.config {
+      None => {
+        if o.signal.is_some() || o.status == Some(101) { fail = Some(("installer-crashes", format!("add_systemd_service died (status {:?}, signal {:?}): {}", o.status, o.signal, truncate(&o.stderr, 400)))); }
+        else if t.machinery.is_none() { t.machinery = Some(format!("the installer wrote no /etc/totalmapper.json in the private namespace (status {:?}): {} {}", o.status, truncate(&o.stdout, 300), truncate(&o.stderr, 300))); }
+      }
+      Some(bytes) => {
+        if std::fs::write(&scratch, bytes).is_err() { t.machinery = Some("cannot write scratch file".into()); continue; }
+        match crate::layout_loading::load_layout_from_file(&scratch) {
+          Err(e) => fail = Some(("saved-layout-rejected-or-not-written", format!("the file saved by the real binary does not load: {}", e))),
+          Ok(back) => if back.mappings != want.mappings {
+            let i = (0..want.mappings.len().max(back.mappings.len())).find(|i| want.mappings.get(*i) != back.mappings.get(*i)).unwrap();
+            fail = Some(("reloaded-layout-differs", format!("real binary: mapping {}: the layout file means {:?}, the saved file reloads as {:?}", i, want.mappings.get(i), back.mappings.get(i))));
+          }
+        }
+        if fail.is_none() { if let Some((st, out)) = &o.service_load { if *st != Some(0) { fail = Some(("service-cannot-load-saved-file", format!("`totalmapper remap --layout-file /etc/totalmapper.json --only-if-keyboard --dev-file ...` (the service's command) exits with {:?}: {}", st, truncate(out, 300)))); } } }
+      }
+    }
+    if let Some((c, d)) = fail {
+      *per_clause.entry(c.to_string()).or_insert(0) += 1;
+      if !t.fails.iter().any(|f| f.0 == c) { t.fails.push((c.to_string(), d, art)); }
+    }
+  }
+  let _ = std::fs::remove_file(&scratch);
+  for f in t.fails.iter_mut() { f.2["instances"] = json!(per_clause[&f.0]); }
+  Some(t)
+}
+
 pub fn run(ctx: &Ctx) -> Outcome {
   let thorough = ctx.tier == Tier::Thorough;
   let mut o = Outcome::new("exploration");
@@ -139,13 +204,24 @@ pub fn run(ctx: &Ctx) -> Outcome {
     }
   }
   o.cov("namespace_tier", ns_status);
+  // tier 3: the real binary's installer in a private namespace
+  match installer_tier(ctx) {
+    None => { o.cov("installer_end_to_end_tier", "unavailable"); }
+    Some(t) => {
+      o.cov("installer_end_to_end_tier", "ran");
+      o.cov("installer_invocations_of_the_real_binary", t.invocations);
+      evals += t.invocations;
+      if let Some(e) = t.machinery { o.machinery_error = Some(format!("installer end-to-end tier: {}", e)); }
+      for (c, d, a) in t.fails { fails.push((c, d, a, "real-binary")); }
+    }
+  }
   o.cov("evaluations", evals);
   o.cov("distinct_nontrivial", nontrivial);
   o.cov("layouts", e.layouts);
   o.cov("mappings_round_tripped", e.mappings);
   o.cov("key_codes_covered", e.key_codes);
   o.cov("exhaustive", true);
-  o.cov("rule", "every key code KeyCode::from_u16 knows, each in trigger-final, trigger-modifier, output-final, output-modifier, repeat-key and absorbing position; the shape family |from| 1-3 x |to| 0-3 x repeat {Normal, Disabled, Special with 0-2 keys and delay/interval over {0,1,180,i32::MAX,-1,i32::MIN}} x every absorbing subset of the trigger modifiers; a 40-mapping order test; layouts of n mappings for every n in 40..=130 and 200/346/500/1000 (saved files around every 8 KiB boundary); the empty layout; every converted layout of the fixed corpus; the converter's outputs for every 23rd (thorough: every 3rd) program of C13's grammar. Saved, reloaded with the real load_layout_from_file, compared as values in order. distinct_nontrivial = distinct non-empty layouts (by serialised value).".to_string());
+  o.cov("rule", "every key code KeyCode::from_u16 knows, each in trigger-final, trigger-modifier, output-final, output-modifier, repeat-key and absorbing position; the shape family |from| 1-3 x |to| 0-3 x repeat {Normal, Disabled, Special with 0-2 keys and delay/interval over {0,1,180,i32::MAX,-1,i32::MIN}} x every absorbing subset of the trigger modifiers; a 40-mapping order test; layouts of n mappings for every n in 40..=130 and 200/346/500/1000 (saved files around every 8 KiB boundary); the empty layout; every converted layout of the fixed corpus; the converter's outputs for every 23rd (thorough: every 3rd) program of C13's grammar. Saved, reloaded with the real load_layout_from_file, compared as values in order. Third tier, when `unshare -m` is available: the real binary (guard off) runs `add_systemd_service --layout-file F` / `--default-layout NAME` in a private mount namespace for every layout above (quick: every 5th of the shape family) as a basic-JSON file, for C13's shorthand programs as files in the user's syntax and for the built-in names; the /etc/totalmapper.json it leaves is reloaded with the real load_layout_from_file and compared with what the real loader makes of F, and the real binary must accept it with the service's own command line. distinct_nontrivial = distinct non-empty layouts (by serialised value).".to_string());
   o.cov("samples", json!(e.samples));
   o.assumptions = vec!["the scratch-file tier trusts that the installer serialises with serde_json::to_writer_pretty(keys::Layout); the namespace tier calls the real private function".into()];
   let mut seen = std::collections::BTreeSet::new();
